@@ -1633,8 +1633,15 @@ func generateText(repo string) (string, error) {
 }
 
 // partialError: the file was produced, but some statements of ValidateNodeGroup could not be translated.
-type partialError struct{ msgs []string }
+type partialError struct {
+	msgs []string
+	what string
+}
 
 func (p *partialError) Error() string {
-	return "translation incomplete (rules outside the grammar are emitted as `true`):\n  " + strings.Join(p.msgs, "\n  ")
+	what := p.what
+	if what == "" {
+		what = "rules outside the grammar are emitted as `true`"
+	}
+	return "translation incomplete (" + what + "):\n  " + strings.Join(p.msgs, "\n  ")
 }
